@@ -139,7 +139,7 @@ func Run(cfg hx.Config) error {
 		return err
 	}
 	defer r.Close()
-	r.Rule = "for every target (the real Parse / DeltaParse / ParseEnrichment of each feed format) generated valid feeds; every cut of the plaintext and of the compressed spool, an injected read error after every position (chunk sizes 1..4096, error delivered with or after the last bytes), byte flips and deletions over the spool; protocol lines carry the outcome class of the real parser and must equal the model's; a case is non-trivial when the parser ran on a damaged input"
+	r.Rule = "for every target (the real Parse / DeltaParse / ParseEnrichment of each feed format) generated valid feeds; every cut of the plaintext and of the compressed spool, an injected read error after every position (chunk sizes 1..4096, error delivered with or after the last bytes), byte flips and deletions over the spool; span deletions from a separator to a later closer; a table of semantic damage per parser; every updater's real Fetch behind scripted HTTP responses (framing length|chunked|close x declared length honest|short|long x ending clean|close|reset x read boundaries, five statuses), over an in-process transport and for a sample over loopback TCP with net/http; every secondary download cut and flipped; stored-wrapper forms (gzip level 0, raw zstd, padded tar) and multi-block bzip2 files bit-flipped in every part; the real Manager.Run for every updater and damage class, over damaged spools, and over histories of 6-10 runs against a store that hands back the last fingerprint; protocol lines carry the outcome class of the real code and must equal the model's; a case is non-trivial when the real code ran on a damaged input"
 	rnd := hx.NewRand(cfg.Seed)
 	ts := targets()
 	r.Notes["targets"] = func() (s []string) {
